@@ -92,7 +92,8 @@ def check(ctx):
                 continue
             n_acc += 1
             ws = [e for e in evs if e.kind == "WRITE"]
-            okw = len(ws) == 1 and written_object(ws[0].a["data"])[0] == "encres" and \
+            from .common import fresh_encoding
+            okw = len(ws) == 1 and fresh_encoding(ws[0], evs) and \
                 {x.split(".")[-1] for x in ty.class_of(written_object(ws[0].a["data"])[1], eng)} == {"CONNECT"}
             ctx.ob("K1", "%s connect() writes exactly one CONNECT" % cq, okw, where=where(ws[0]) if ws else w, function=ent.func.qual,
                    construct="%s.connect/write" % cls.qual, msg="%d writes on an accepting path of connect()" % len(ws))
